@@ -30,7 +30,27 @@ JOB_FILE = os.path.join(os.path.dirname(os.path.abspath(__file__)), 'jobs',
 # --------------------------------------------------------------------------
 # generation
 
+def gen_long_chain(rng):
+    '''A chain of a few hundred tasks (well below the interpreter's recursion
+    limit), run, then run again after the head lost its environment: every
+    task is out of date and must be executed again, in order.'''
+    ntask = rng.choice((260, 280, 300))
+    tasks = [{'name': 't%d' % i, 'kind': 'task', 'hard': [i - 1] if i else [],
+              'soft': [], 'dur': 0, 'since': 0, 'echo': False}
+             for i in range(ntask)]
+    runs = [{'workers': rng.choice((1, 2)), 'via': 'direct',
+             'outcome': ['ok'] * ntask, 'lose_env': lost, 'gap': 0.0,
+             'plan': []}
+            for lost in ([], [rng.choice((0, 0, ntask // 2))])]
+    return {'kind': 'history', 'tasks': tasks, 'runs': runs,
+            'late_master': False, 'clock_quantum': None, 'root_form': '',
+            'salt': rng.randrange(1 << 30), 'tick': 1e-4, 'linemode': False,
+            'long_chain': True}
+
+
 def gen_history(rng, fam):
+    if fam.get('rough') and rng.random() < 0.012:
+        return gen_long_chain(rng)
     ntask = rng.choice((2, 3, 3, 4, 4, 5, 6, 7))
     shape = rng.choice(('chain', 'chain', 'diamond', 'random', 'random'))
     p_soft = rng.choice((0.0, 0.0, 0.3, 1.0))
@@ -362,7 +382,9 @@ def run_history(scn, chooser):
             sub = chooser.for_run(r, scn)
             lf = load.line_files(mods) if scn.get('linemode') else None
             sim = core.Sim(sub, tick=scn['tick'], t0=clock, line_files=lf,
-                           keep_trace=False)
+                           keep_trace=False,
+                           max_steps=8000000 if scn.get('long_chain')
+                           else 200000)
             sim.clock_quantum = scn.get('clock_quantum')
             CURRENT['make'] = make_tasks_factory(scn, r, root, mods, log,
                                                  counter)
